@@ -2137,7 +2137,7 @@ class CParser:
             designation = self._parse_designation()
         init = self._parse_initializer()
         if designation is not None:
-            return c_ast.NamedInitializer(designation, init)
+            return c_ast.NamedInitializer(designation, init, designation[0].coord)
         return init
 
     # BNF: designation : designator_list '='
